@@ -16,6 +16,8 @@ parents  none   no parent
          chromnoid  the same without sequence id (`seq_to_parent(seq)`, the function's default)
          chunk  sequence chunk [cs, ce) on the plus strand (`seq_chunk_to_parent`); the window either contains the
                 object's span or cuts it (classified in the description: "window": contains|cuts-left|cuts-right|inside)
+         chunkrev  the same window as a chunk on the MINUS strand of the chromosome
+                (`seq_chunk_to_parent(revcomp(genome[cs:ce]), name, cs, ce, strand=Strand.MINUS)`)
 profiles plain | adv (adversarial values) | advkey (adversarial keys too) | mixed (non-string qualifier values) | sparse
 """
 import random
@@ -23,7 +25,7 @@ import random
 from harness import gen_collections as G
 
 KINDS = ["tx", "cds", "feat", "var", "gene", "fc", "vc", "ac"]
-PARENTS = ["none", "bare", "chrom", "chromnoid", "chunk"]
+PARENTS = ["none", "bare", "chrom", "chromnoid", "chunk", "chunkrev"]
 PROFILES = ["plain", "adv", "advkey", "mixed", "sparse"]
 GENOME_LEN = 160
 SEQNAME = "chr1"
@@ -227,7 +229,7 @@ def describe(kind, pkind, seed, profile):
     else:
         d = GEN[kind](rng, profile)
     ps = {"kind": pkind, "seqname": SEQNAME, "genome_len": GENOME_LEN}
-    if pkind == "chunk":
+    if pkind in ("chunk", "chunkrev"):
         lo, hi = span(kind, d) if not (kind == "ac" and d["shape"] == "empty") else (10, 20)
         how = rng.choice(["contains", "contains", "contains", "cuts-left", "cuts-right", "inside"])
         if kind == "ac" and d.get("start") is not None:
@@ -250,6 +252,65 @@ def describe(kind, pkind, seed, profile):
 # ----------------------------------------------------------------------------------------------------------
 # real objects (public constructors only)
 
+def revcomp(s):
+    return s[::-1].translate(str.maketrans("ACGT", "TGCA"))
+
+
+def window_of(ps):
+    """the stretch [lo, hi) of the chromosome whose sequence the parent provides, or None (no sequence)"""
+    k = ps["kind"]
+    if k in ("chrom", "chromnoid"):
+        return 0, ps["genome_len"]
+    if k in ("chunk", "chunkrev"):
+        return ps["chunk"]
+    return None
+
+
+def expected_spliced(blocks, strand, ps):
+    """brute force from the plain genome string: the 5'->3' sequence of the part of the blocks inside the window
+    (None without sequence; "" when nothing is inside)"""
+    w = window_of(ps)
+    if w is None:
+        return None
+    g = G.genome(max(ps["genome_len"], w[1]))
+    parts = [g[max(s, w[0]):min(e, w[1])] for s, e in blocks if max(s, w[0]) < min(e, w[1])]
+    seq = "".join(parts)
+    return revcomp(seq) if strand == "MINUS" else seq
+
+
+def expected_sequences(kind, d, ps):
+    """brute-force sequences of every member, in the order `impl_serial.seq_tree` reports them"""
+    out = []
+    if kind == "tx":
+        out.append(expected_spliced(list(zip(d["exon_starts"], d["exon_ends"])), d["strand"], ps))
+        if d["cds_starts"]:
+            out.append(expected_spliced(list(zip(d["cds_starts"], d["cds_ends"])), d["strand"], ps))
+    elif kind == "cds":
+        out.append(expected_spliced(list(zip(d["cds_starts"], d["cds_ends"])), d["strand"], ps))
+    elif kind == "feat":
+        out.append(expected_spliced(list(zip(d["interval_starts"], d["interval_ends"])), d["strand"], ps))
+    elif kind == "var":
+        out.append(expected_spliced([(d["start"], d["end"])], "PLUS", ps))
+    else:
+        out.append(expected_spliced([span(kind, d)] if kind != "ac" else [], "PLUS", ps) if kind != "ac" else None)
+        for ck, c in children(kind, d):
+            out += expected_sequences(ck, c, ps)
+    return out
+
+
+def children(kind, d):
+    if kind == "gene":
+        return [("tx", t) for t in d["transcripts"]]
+    if kind == "fc":
+        return [("feat", f) for f in d["feature_intervals"]]
+    if kind == "vc":
+        return [("var", v) for v in sorted(d["variant_intervals"], key=lambda v: v["start"])]
+    if kind == "ac":
+        return ([("gene", g) for g in d["genes"]] + [("fc", f) for f in d["feature_collections"]]
+                + [("vc", v) for v in d["variant_collections"]])
+    return []
+
+
 def make_parent(ps):
     from inscripta.biocantor.parent import Parent
     from inscripta.biocantor.sequence.sequence import SequenceType
@@ -258,6 +319,12 @@ def make_parent(ps):
         return None
     if k == "bare":
         return Parent(id=ps["seqname"], sequence_type=SequenceType.CHROMOSOME)
+    if k == "chunkrev":
+        from inscripta.biocantor.io.parser import seq_chunk_to_parent
+        from inscripta.biocantor.location.strand import Strand
+        cs, ce = ps["chunk"]
+        return seq_chunk_to_parent(revcomp(G.genome(max(ps["genome_len"], ce))[cs:ce]), ps["seqname"], cs, ce,
+                                   strand=Strand.MINUS)
     if k == "chromnoid":
         from inscripta.biocantor.io.parser import seq_to_parent
         return seq_to_parent(G.genome(ps["genome_len"]))
